@@ -270,19 +270,25 @@ def _apply_kept(expr, env):
 LAST = {"env": {}}  # environment at the last undecidable test (for diagnostics and argument inspection)
 
 
-def run_chain(stmts, env, atoms=None, depth=0):
-    """Interpret the control skeleton: returns ('return', expr) | ('raise', node) | ('fall', None) | ('unknown', node)"""
+def run_chain(stmts, env, atoms=None, depth=0, effects=None):
+    """Interpret the control skeleton: returns ('return', expr) | ('raise', node) | ('fall', None) | ('unknown', node).
+    With `effects` (a list), statements that decide nothing (calls in statement position, loops without an exit,
+    stores into containers / attributes) are appended to it and skipped instead of ending the evaluation."""
     if depth == 0:
         env = dict(env)  # nested blocks of a decided branch bind into the same environment
     for s in stmts:
         if isinstance(s, ast.Expr) and isinstance(s.value, ast.Constant):
             continue
+        if effects is not None:
+            if isinstance(s, ast.Expr) or (isinstance(s, (ast.For, ast.While)) and not any(isinstance(x, (ast.Return, ast.Raise, ast.Break)) for x in ast.walk(s))) or (isinstance(s, (ast.Assign, ast.AugAssign)) and all(isinstance(t, (ast.Subscript, ast.Attribute)) for t in (s.targets if isinstance(s, ast.Assign) else [s.target]))):
+                effects.append(s)
+                continue
         if isinstance(s, ast.If):
             v = eval_bool(s.test, env, atoms)
             if v is UNKNOWN:
                 LAST["env"] = dict(env)
                 return ("unknown", s.test)
-            r = run_chain(s.body if v else s.orelse, env, atoms, depth + 1)
+            r = run_chain(s.body if v else s.orelse, env, atoms, depth + 1, effects)
             if r[0] != "fall":
                 return r
             continue
@@ -294,6 +300,11 @@ def run_chain(stmts, env, atoms=None, depth=0):
             if isinstance(v, list) and len(v) == len(s.targets[0].elts):
                 for t, x in zip(s.targets[0].elts, v):
                     env[t.id] = x
+                continue
+            if v is _NOVAL:
+                # the value is not modelled: the targets are simply unknown from here on
+                for t in s.targets[0].elts:
+                    env.pop(t.id, None)
                 continue
             return ("unknown", s)
         if isinstance(s, ast.For) and not s.orelse:
@@ -308,7 +319,7 @@ def run_chain(stmts, env, atoms=None, depth=0):
                             env[t.id] = x
                     else:
                         return ("unknown", s)
-                    r = run_chain(s.body, env, atoms, depth + 1)
+                    r = run_chain(s.body, env, atoms, depth + 1, effects)
                     if r[0] != "fall":
                         done = r
                         break
@@ -333,11 +344,11 @@ def run_chain(stmts, env, atoms=None, depth=0):
                 hs = [h for h in s.handlers if h.type is None or {ast.unparse(t) for t in (h.type.elts if isinstance(h.type, ast.Tuple) else [h.type])} >= {"TypeError", "ValueError"} or ast.unparse(h.type) in ("Exception", "BaseException")]
                 if not hs or hs[0] is not s.handlers[0]:
                     return ("unknown", s)
-                r = run_chain(hs[0].body, env, atoms, depth + 1)
+                r = run_chain(hs[0].body, env, atoms, depth + 1, effects)
                 if r[0] != "fall":
                     return r
                 continue
-            r = run_chain(s.body, env, atoms, depth + 1)
+            r = run_chain(s.body, env, atoms, depth + 1, effects)
             if r[0] != "fall":
                 return r
             continue
